@@ -249,7 +249,7 @@ class _:
     pure = staticmethod(lambda o, p: p.g_mtime)
 
 
-@contract(f"{IDX}.FastaIndex.check_for_index_files", properties=("C15",))
+@contract(f"{IDX}.FastaIndex.check_for_index_files", properties=("C15", "C03", "C17"))
 class _:
     # "Cache files that are missing or not strictly newer than the FASTA are rebuilt": accepted iff both exist
     # and both are strictly newer
@@ -299,5 +299,5 @@ def _run_indexing_obligations(mi, fn):
     return [("post", "index-and-assembly-of-the-current-file-then-both-caches-written", [], z3.BoolVal(True))]
 
 
-contract(f"{IDX}.FastaIndex.auto_load", properties=("C15",), custom=staticmethod(_auto_load_obligations))(type("_", (), {}))
-contract(f"{IDX}.FastaIndex.run_indexing", properties=("C15",), custom=staticmethod(_run_indexing_obligations))(type("_", (), {}))
+contract(f"{IDX}.FastaIndex.auto_load", properties=("C15", "C03", "C17"), custom=staticmethod(_auto_load_obligations))(type("_", (), {}))
+contract(f"{IDX}.FastaIndex.run_indexing", properties=("C15", "C13", "C03", "C04"), custom=staticmethod(_run_indexing_obligations))(type("_", (), {}))
